@@ -864,6 +864,39 @@ def fragment_twins():
     return out
 
 
+def misc_twins():
+    """(a) a wrapper left open at a step end whose last inner action is `-> Some` / `-> Ok` written as a bare path: the step can
+        still fail (the wrapper is not entered for `None` / `Err`), and then nothing of the next step runs (seeded change C05-m);
+    (b) lazy branches whose value *is* a zero-argument closure literal: the joiner / the branch thread gets a thunk that yields
+        that closure, it does not call the user's closure (seeded change C16-m)."""
+    out = []
+    cases = []
+    for kind in ("try_join", "try_join_spawn"):
+        for fail in (True, False):
+            src = "None::<u32>" if fail else "Some(4u32)"
+            dsl = "%s => >>> -> |x: u32| { z(2, &x); x + 1 } -> Some ~|> |v| { z(3, &v); v + 1 }, Some(1u32) ~|> |v| { z(5, &v); v }" % src
+            ref = "None::<(u32, u32)>" if fail else "{ z(2, &4u32); z(3, &5u32); z(5, &1u32); Some((6u32, 1u32)) }"
+            cases.append((kind, "", "%s! { %s }" % (kind, dsl), ref, "w:open_wrapper_ending_in_bare_Some"))
+            srcr = "Err::<u32, u8>(7)" if fail else "Ok::<u32, u8>(4)"
+            dsl = "%s |> >>> -> |x: u32| { z(2, &x); x + 1 } -> Ok::<u32, u8> ~=> |r| { z(3, &r); r }, Ok::<u32, u8>(1) ~|> |v| { z(5, &v); v }" % srcr
+            ref = "Err::<(u32, u32), u8>(7)" if fail else "{ z(2, &4u32); z(3, &Ok::<u32, u8>(5)); z(5, &1u32); Ok::<(u32, u32), u8>((5u32, 1u32)) }"
+            cases.append((kind, "", "%s! { %s }" % (kind, dsl), ref, "w:open_wrapper_ending_in_bare_Ok"))
+    thunks = "move || { z(1, &1u32); 1u64 }, move || { z(5, &2u32); 2u64 }"
+    rthunk = "{ let a = move || { z(1, &1u32); 1u64 }; let b = move || { z(5, &2u32); 2u64 }; a() + b() }"
+    cases.append(("join_spawn", "", "{ let (a, b) = join_spawn! { %s }; a() + b() }" % thunks, rthunk, "sp:lazy_branch_is_a_closure_literal"))
+    jl = "fn jl<A: FnOnce() -> X, X, B: FnOnce() -> Y, Y>(a: A, b: B) -> (X, Y) { (a(), b()) }"
+    cases.append(("join", jl, "{ let (a, b) = join! { lazy_branches(true) custom_joiner(jl) %s }; a() + b() }" % thunks, rthunk, "sp:lazy_branch_is_a_closure_literal"))
+    for (kind, pre, mexpr, ref, tag) in cases:
+        def mk(pid, kind=kind, pre=pre, mexpr=mexpr, ref=ref, tag=tag):
+            m = "pub fn m_%d() -> String { %s let __res = %s; dbg(__res) }" % (pid, pre, mexpr)
+            r = "pub fn r_%d() -> String { %s let __res = %s; dbg(__res) }" % (pid, pre, ref)
+            ent = "Twin { id: %d, kind: %s, m: m_%d, r: r_%d, srcs: &[], branches: &[(1, 5), (5, 7)], tags: %s, text: %s, reference: %s, max_id: 8 }" % (
+                pid, rs(kind), pid, pid, rs("wrap," + tag), rs(mexpr), rs(ref))
+            return m + "\n" + r, ent
+        out.append(LiteralTwin(kind, ["wrap"], mk))
+    return out
+
+
 def render_prog(p, mode="twin"):
     """Returns (source of m_N and r_N, twin table entry) or None if the program cannot be rendered for its kind."""
     if isinstance(p, LiteralTwin):
@@ -1409,7 +1442,7 @@ def build_corpus(tier, seed):
         kind = ALL_KINDS[tries % 12] if rng.random() < 0.6 else rng.choice(SYNC_KINDS)
         length = rng.choice([0, 1, 2, 3, 4, 5, 6, 8] if tier == "quick" else [0, 1, 2, 3, 4, 6, 8, 12, 16])
         keep(gen_prog(0, rng, kind, length))
-    for lt in wrapper_capture_twins() + fragment_twins():
+    for lt in wrapper_capture_twins() + fragment_twins() + misc_twins():
         lt.id = pid[0]
         pid[0] += 1
         progs.append(lt)
